@@ -203,12 +203,20 @@ def gen_put_world(rng, profile="mixed"):
         opts["homeFallback"] = True
     if rng.random() < 0.5 and opts.get("homeFallback"):
         env["TRASH_ENABLE_HOME_FALLBACK"] = b"1"
+    elif opts.get("homeFallback") and rng.random() < 0.6:
+        # anything but "1" leaves the fallback off
+        env["TRASH_ENABLE_HOME_FALLBACK"] = rng.choice([b"0", b"", b"false", b"no", b"off", b"2", b"true", b"yes", b"01", b"1 "])
     elif rng.random() < 0.05:
         env["TRASH_ENABLE_HOME_FALLBACK"] = rng.choice([b"1", b"0", b"yes"])
     # where the entries live
     dirs = [home, home + b"/work", R + b"/data"] + [v + b"/stuff" for v in vols[1:]] + [v for v in vols[1:]]
     names = list(NAMES)
     rng.shuffle(names)
+    long_name = None
+    if profile in ("collide", "mixed") and rng.random() < (0.3 if profile == "collide" else 0.06):
+        # a base name of 246-255 bytes: "<name>.trashinfo" does not fit, trash-put shortens the name
+        long_name = rng.choice([b"L", b"n"]) * rng.choice([246, 250, 255])
+        names[0] = long_name
     nargs = rng.choice([1, 1, 1, 2, 2, 3, 4])
     if profile == "single":
         nargs = 1
@@ -239,6 +247,14 @@ def gen_put_world(rng, profile="mixed"):
             args.append(rng.choice([mp, mp + b"/", relpath(mp, cwd)]))
             meta.append({"class": "mountpoint"})
             continue
+        if name == long_name:
+            kind = make_entry(rng, w, d, name, rng.choice(["file", "empty", "tree", "link-dangling"]))
+            s_, sp = spell(rng, w, d + b"/" + name, cwd, kind)
+            if sp in ("symlink-dotdot", "via-link-parent", "dotdot"):
+                s_, sp = d + b"/" + name, "abs"
+            args.append(s_)
+            meta.append({"class": "entry", "kind": kind, "spelling": sp, "entry": d + b"/" + name})
+            continue
         kind = make_entry(rng, w, d, name, rng.choice(["link-file", "link-dir", "link-dangling", "link-abs", "link-link"] +
                                                       (["link-mount", "link-mount"] if len(vols) > 1 else []))
                           if profile == "links" and rng.random() < 0.8 else None, mounts=vols[1:])
@@ -268,7 +284,10 @@ def gen_put_world(rng, profile="mixed"):
             w.dir(tdir, 0o700)
             w.dir(tdir + b"/files", 0o700)
             w.dir(tdir + b"/info", 0o700)
-            populate_trash(rng, w, tdir, names[:nargs], rng.randint(1, 4))
+            populate_trash(rng, w, tdir, [n_ for n_ in names[:nargs] if n_ != long_name] or [b"f"], rng.randint(1, 4))
+            if long_name is not None and long_name in names[:nargs] and rng.random() < 0.7:
+                sfx = b"_1"
+                w.file(tdir + b"/files/" + long_name[:len(long_name) - len(sfx + b".trashinfo")] + sfx, b"orphan at the shortened name")
     if profile == "collide":
         for tdir in {home + b"/.local/share/Trash"} | {v + b"/" + uid_dir(uid) for v in vols}:
             parent = os.path.dirname(tdir)
@@ -282,6 +301,21 @@ def gen_put_world(rng, profile="mixed"):
                 if "entry" not in m_:
                     continue
                 nm = os.path.basename(m_["entry"])
+                if nm == long_name:
+                    # payloads without .trashinfo at the names the shortened entry would take (files/<shortened>_k)
+                    for k in range(1, rng.choice([1, 2, 4])):
+                        sfx = b"_%d" % k
+                        short = nm[:len(nm) - len(sfx + b".trashinfo")] + sfx
+                        what = rng.choice(["payload-only", "payload-dir", "payload-dangling-link", "pair"])
+                        if what == "pair":
+                            w.file(tdir + b"/info/" + short + b".trashinfo", b"[Trash Info]\nPath=/old\nDeletionDate=2020-01-01T00:00:00\n", 0o600)
+                        if what in ("payload-only", "pair"):
+                            w.file(tdir + b"/files/" + short, b"old long " + sfx)
+                        elif what == "payload-dir":
+                            w.file(tdir + b"/files/" + short + b"/inner", b"old dir")
+                        elif what == "payload-dangling-link":
+                            w.link(tdir + b"/files/" + short, b"nowhere")
+                    continue
                 for k in range(many):
                     sfx = b"" if k == 0 else b"_%d" % k
                     what = rng.choice(["pair", "pair", "info-only", "payload-only", "payload-dangling-link", "payload-dir"])
@@ -550,6 +584,12 @@ def gen_trash_world(rng, cmd, profile="mixed"):
             opts["ttyDefault"] = True           # neither -i nor -f and stdin is not a terminal: no question
         if custom and rng.random() < 0.6:
             opts["userDirs"] = [custom]
+        if not opts.get("ttyDefault") and rng.random() < 0.25:
+            # -f and -i together: as with rm, the last one wins
+            if opts.get("interactive"):
+                opts["flags"] = rng.choice([[b"-f", b"-i"], [b"-fi"], [b"-f", b"--interactive"], [b"-i", b"-f", b"-i"]])
+            else:
+                opts["flags"] = rng.choice([[b"-i", b"-f"], [b"-if"], [b"--interactive", b"-f"], [b"-f", b"-i", b"-f"]])
     elif cmd == "rm":
         pats = [b"*", b"foo", b"foo*", b"*.o", b"F*", b"?oo", b"[fF]oo", b"/SBX/*", b"*/w/*", b"nomatch", b"a b", b"caf*", b"[!f]*", b"*\n*", b"d1"]
         if entries:
